@@ -195,6 +195,19 @@ def param_sets(name, sig, rng, how_many, small=False):
                     kw[k] = float(d) * (1.5 if v == 1 else 0.5) if d else float(v)
             if kw and any(not isinstance(x, int) or k.lower() != 'devtype' for k, x in kw.items()):
                 out.append(kw)
+        # relation sets: the values of two integer parameters exchanged (vis_std > sed_std, a `fast` period above the `slow` one
+        # ...): code that assumes the usual order indexes backwards past the start of its arrays
+        ints = [k for k, d in defaults.items() if isinstance(d, int) and not isinstance(d, bool) and d >= 2
+                and 'matype' not in k.lower() and k.lower() != 'devtype' and k not in float_annotated]
+        for a_ in range(len(ints)):
+            for b_ in range(a_ + 1, len(ints)):
+                if defaults[ints[a_]] != defaults[ints[b_]] and len(out) < 40:
+                    out.append({ints[a_]: defaults[ints[b_]], ints[b_]: defaults[ints[a_]]})
+        # offsets / shifts / displacements at zero and below (legal integers: an offset counts in either direction)
+        for k, d in defaults.items():
+            if isinstance(d, int) and not isinstance(d, bool) and any(x in k.lower() for x in ('offset', 'shift', 'displacement')):
+                out.append({k: 0})
+                out.append({k: -(abs(d) + 1)})
         # every indicator that takes a moving-average selector: a few selector types with everything else at its default
         for k, d in defaults.items():
             if 'matype' in k.lower() and isinstance(d, int):
